@@ -15,8 +15,9 @@ CLAIMED = {
         "Coq proof (structural/size induction over constraint expressions; list lemmas for splicing and names) + differential correspondence of the model's invert with the real invertCffConstraint",
         "Theorems C16_invert, C16_header, C16_printable, C16_untouched, C16_splice, C16_names hold for every constraint expression, "
         "tag assignment, header and directive layout (unbounded, kernel-checked, no axioms). The model's invert is tied to the code by exact AST "
-        "equality with the real invertCffConstraint on every expression of depth<=2 over three tags plus seeded random deeper ones, and by truth "
-        "tables of whole headers pushed through the real writeInvertedCffTag.",
+        "equality with the real invertCffConstraint on every expression of depth<=2 over three tags plus seeded random deeper ones, by truth "
+        "tables of whole headers pushed through the real writeInvertedCffTag, and by runs of the real cff on a multi-package layout: files written vs the extracted gen_filename (equal base names "
+        "in different directories, test files, -file=IN and -file=IN=OUT), directory snapshots, token-identical preservation of every declaration without directive, imports only added.",
         "Trusted: Coq kernel; extraction (ExtrOcamlBasic) + OCaml driver; Go's go/build/constraint (Parse, String, PlusBuildLines: oracle of the header "
         "theorem, validated per run) and gofmt; the harness. Token-level preservation by the real tool and the written paths are observed on runs of the "
         "real cff binary, not proved of the Go code.",
